@@ -115,15 +115,28 @@ type gencodeGen struct {
 	locs    []*descriptorpb.SourceCodeInfo_Location
 	goFeat  bool // file imports go_features.proto
 
+	nonZeroFirstEnums int
+
 	fileClosedEnums bool // file-level features.enum_type = CLOSED
 	fileImplicit    bool // file-level features.field_presence = IMPLICIT
 }
 
 type gencodeEnumRef struct {
 	name      string
-	first     string // name of the first value
+	first     string   // name of the first value
+	names     []string // all value names, in declaration order
+	zeroName  string   // a value numbered 0, if any
 	closed    bool
 	zeroFirst bool
+}
+
+func (g *gencodeGen) enumRef(name string) *gencodeEnumRef {
+	for i := range g.enums {
+		if g.enums[i].name == name {
+			return &g.enums[i]
+		}
+	}
+	return nil
 }
 
 type gencodeExtendee struct {
@@ -189,13 +202,28 @@ func (g *gencodeGen) genEnum(scope string, used map[string]bool, path []int32) *
 	n := 1 + g.r.Intn(4)
 	vused := used // enum values live in the scope that contains the enum
 	nums := map[int32]bool{}
+	// closed enums may start with a non-zero value; half of those get a later zero value
+	nonZeroFirst := closed && g.r.Pct(50)
+	laterZero := nonZeroFirst && g.r.Pct(60)
+	if laterZero && n < 2 {
+		n = 2
+	}
+	zeroPos := -1
+	if laterZero {
+		zeroPos = 1 + g.r.Intn(n-1)
+	}
 	for i := 0; i < n; i++ {
 		vn := g.uniqueName(gencodeEnumValueNames, vused)
 		var num int32
-		if i == 0 && !(closed && g.r.Pct(30)) {
+		switch {
+		case i == 0 && !nonZeroFirst:
 			num = 0
-		} else {
-			num = []int32{1, 2, 3, -1, 100, 2147483647, -2147483648, 7}[g.r.Intn(8)]
+		case i == 0:
+			num = []int32{1, 1, -1, 5, 2147483647, -2147483648}[g.r.Intn(6)]
+		case i == zeroPos:
+			num = 0
+		default:
+			num = []int32{1, 2, 3, -1, 100, 2147483647, -2147483648, 7, 0, -7}[g.r.Intn(10)]
 		}
 		if nums[num] {
 			if g.r.Pct(50) {
@@ -227,7 +255,17 @@ func (g *gencodeGen) genEnum(scope string, used map[string]bool, path []int32) *
 		}
 		ed.Options.Deprecated = proto.Bool(true)
 	}
-	g.enums = append(g.enums, gencodeEnumRef{name: scope + "." + name, first: ed.Value[0].GetName(), closed: closed, zeroFirst: ed.Value[0].GetNumber() == 0})
+	ref := gencodeEnumRef{name: scope + "." + name, first: ed.Value[0].GetName(), closed: closed, zeroFirst: ed.Value[0].GetNumber() == 0}
+	for _, v := range ed.Value {
+		ref.names = append(ref.names, v.GetName())
+		if v.GetNumber() == 0 && ref.zeroName == "" {
+			ref.zeroName = v.GetName()
+		}
+	}
+	if nonZeroFirst {
+		g.nonZeroFirstEnums++
+	}
+	g.enums = append(g.enums, ref)
 	return ed
 }
 
@@ -347,7 +385,7 @@ func (g *gencodeGen) genMessage(scope, name string, depth int, path []int32) *de
 		kind := r.Intn(100)
 		isMap := false
 		switch {
-		case kind < 50:
+		case kind < 42:
 			fdp.Type = gencodeScalarTypes[r.Intn(len(gencodeScalarTypes))].Enum()
 		case kind < 62 && len(g.enums) > 0:
 			e := g.enums[r.Intn(len(g.enums))]
@@ -393,8 +431,8 @@ func (g *gencodeGen) genMessage(scope, name string, depth int, path []int32) *de
 			switch v := r.Intn(10); {
 			case v < 5:
 				val.Type = gencodeScalarTypes[r.Intn(len(gencodeScalarTypes))].Enum()
-			case v < 7 && len(g.enums) > 0 && g.enums[len(g.enums)-1].zeroFirst:
-				e := g.enums[len(g.enums)-1]
+			case v < 7 && len(g.enums) > 0 && g.enums[(i+len(g.enums)-1)%len(g.enums)].zeroFirst:
+				e := g.enums[(i+len(g.enums)-1)%len(g.enums)]
 				val.Type = descriptorpb.FieldDescriptorProto_TYPE_ENUM.Enum()
 				val.TypeName = proto.String(e.name)
 			default:
@@ -475,13 +513,28 @@ func (g *gencodeGen) genMessage(scope, name string, depth int, path []int32) *de
 		if fdp.GetType() == descriptorpb.FieldDescriptorProto_TYPE_ENUM && fdp.GetOptions().GetFeatures().GetFieldPresence() == descriptorpb.FeatureSet_IMPLICIT {
 			fdp.Options.Features.FieldPresence = nil
 		}
+		if e := g.enumRef(fdp.GetTypeName()); e != nil && e.closed && g.fileImplicit && !isMap &&
+			fdp.GetLabel() == descriptorpb.FieldDescriptorProto_LABEL_OPTIONAL && inOneof < 0 && fdp.GetOptions().GetFeatures().GetFieldPresence() == descriptorpb.FeatureSet_FIELD_PRESENCE_UNKNOWN {
+			if fdp.Options == nil {
+				fdp.Options = &descriptorpb.FieldOptions{}
+			}
+			if fdp.Options.Features == nil {
+				fdp.Options.Features = &descriptorpb.FeatureSet{}
+			}
+			fdp.Options.Features.FieldPresence = descriptorpb.FeatureSet_EXPLICIT.Enum()
+		}
 		// defaults (explicit presence singular scalars only)
 		implicit := fdp.GetOptions().GetFeatures().GetFieldPresence() == descriptorpb.FeatureSet_IMPLICIT ||
 			(g.fileImplicit && fdp.GetOptions().GetFeatures().GetFieldPresence() == descriptorpb.FeatureSet_FIELD_PRESENCE_UNKNOWN)
 		if g.syntax != "proto3" && isScalar && fdp.GetLabel() == descriptorpb.FieldDescriptorProto_LABEL_OPTIONAL && inOneof < 0 && !implicit && r.Pct(30) {
 			if fdp.GetType() == descriptorpb.FieldDescriptorProto_TYPE_ENUM {
-				for _, e := range g.enums {
-					if e.name == fdp.GetTypeName() {
+				if e := g.enumRef(fdp.GetTypeName()); e != nil {
+					switch k := r.Intn(3); {
+					case k == 0 && e.zeroName != "":
+						fdp.DefaultValue = proto.String(e.zeroName)
+					case k == 1:
+						fdp.DefaultValue = proto.String(e.names[len(e.names)-1])
+					default:
 						fdp.DefaultValue = proto.String(e.first)
 					}
 				}
@@ -716,7 +769,7 @@ func gencodeSchema(seed uint64, pkg, fileName, goPkg string) *descriptorpb.FileD
 	}
 	// the file-level implicit presence default conflicts with closed enums / defaults in ways protoc rejects; protodesc decides validity below
 	used := map[string]bool{}
-	for i, n := 0, r.Intn(3); i < n; i++ {
+	for i, n := 0, 1+r.Intn(3); i < n; i++ {
 		fd.EnumType = append(fd.EnumType, g.genEnum("."+pkg, used, []int32{5, int32(i)}))
 	}
 	nm := 1 + r.Intn(4)
@@ -766,11 +819,15 @@ func gencodeSchema(seed uint64, pkg, fileName, goPkg string) *descriptorpb.FileD
 	if len(g.locs) > 0 {
 		fd.SourceCodeInfo = &descriptorpb.SourceCodeInfo{Location: g.locs}
 	}
+	gencodeLastNonZeroFirst = g.nonZeroFirstEnums
 	return fd
 }
 
 // corpus (always first): the F12 witness and the other classes found by this check
-const gencodeCorpusSize = 11
+const gencodeCorpusSize = 12
+
+// order of execution: the enum/default shapes schema (11) comes first
+var gencodeCorpusOrder = []int{11, 0, 1, 2, 3, 4, 5, 6, 7, 8, 9, 10}
 
 func gencodeCorpus(idx int, pkg, fileName, goPkg string) *descriptorpb.FileDescriptorProto {
 	opt := descriptorpb.FieldDescriptorProto_LABEL_OPTIONAL.Enum()
@@ -838,9 +895,20 @@ func gencodeCorpus(idx int, pkg, fileName, goPkg string) *descriptorpb.FileDescr
 		e := &descriptorpb.EnumDescriptorProto{Name: proto.String("E"), Value: []*descriptorpb.EnumValueDescriptorProto{{Name: proto.String("A"), Number: proto.Int32(0)}, {Name: proto.String("B"), Number: proto.Int32(1)}},
 			Options: &descriptorpb.EnumOptions{Features: &descriptorpb.FeatureSet{EnumType: descriptorpb.FeatureSet_CLOSED.Enum()}}}
 		fd.EnumType = []*descriptorpb.EnumDescriptorProto{e}
+		c := &descriptorpb.EnumDescriptorProto{Name: proto.String("C"), Value: []*descriptorpb.EnumValueDescriptorProto{{Name: proto.String("C_ONE"), Number: proto.Int32(1)}, {Name: proto.String("C_ZERO"), Number: proto.Int32(0)}},
+			Options: &descriptorpb.EnumOptions{Features: &descriptorpb.FeatureSet{EnumType: descriptorpb.FeatureSet_CLOSED.Enum()}}}
+		fd.EnumType = []*descriptorpb.EnumDescriptorProto{e, c}
 		en := f("e", 1, descriptorpb.FieldDescriptorProto_TYPE_ENUM.Enum())
 		en.TypeName = proto.String("." + pkg + ".E")
-		fd.MessageType = []*descriptorpb.DescriptorProto{{Name: proto.String("M"), Field: []*descriptorpb.FieldDescriptorProto{en}}}
+		cn := f("c", 2, descriptorpb.FieldDescriptorProto_TYPE_ENUM.Enum()) // explicit presence, no default: reads as C_ONE when unset
+		cn.TypeName = proto.String("." + pkg + ".C")
+		cd := f("c_zero", 3, descriptorpb.FieldDescriptorProto_TYPE_ENUM.Enum())
+		cd.TypeName = proto.String("." + pkg + ".C")
+		cd.DefaultValue = proto.String("C_ZERO")
+		cr := f("c_req", 4, descriptorpb.FieldDescriptorProto_TYPE_ENUM.Enum())
+		cr.TypeName = proto.String("." + pkg + ".C")
+		cr.Options = &descriptorpb.FieldOptions{Features: &descriptorpb.FeatureSet{FieldPresence: descriptorpb.FeatureSet_LEGACY_REQUIRED.Enum()}}
+		fd.MessageType = []*descriptorpb.DescriptorProto{{Name: proto.String("M"), Field: []*descriptorpb.FieldDescriptorProto{en, cn, cd, cr}}}
 	case 9: // FQ6: an empty comment line before a field
 		fd.MessageType = []*descriptorpb.DescriptorProto{{Name: proto.String("M"), Field: []*descriptorpb.FieldDescriptorProto{f("a", 1, i32), f("bb", 2, i32), f("reset", 3, i32)}}}
 		fd.SourceCodeInfo = &descriptorpb.SourceCodeInfo{Location: []*descriptorpb.SourceCodeInfo_Location{
@@ -851,6 +919,81 @@ func gencodeCorpus(idx int, pkg, fileName, goPkg string) *descriptorpb.FileDescr
 		fl := f("f", 2, descriptorpb.FieldDescriptorProto_TYPE_FLOAT.Enum())
 		fl.DefaultValue = proto.String("-0")
 		fd.MessageType = []*descriptorpb.DescriptorProto{{Name: proto.String("M"), Field: []*descriptorpb.FieldDescriptorProto{d, fl}}}
+	case 11: // shapes of enums and defaults that getters of unset fields depend on (proto2, closed enums)
+		ev := func(n string, num int32) *descriptorpb.EnumValueDescriptorProto {
+			return &descriptorpb.EnumValueDescriptorProto{Name: proto.String(n), Number: proto.Int32(num)}
+		}
+		fd.EnumType = []*descriptorpb.EnumDescriptorProto{
+			{Name: proto.String("E"), Value: []*descriptorpb.EnumValueDescriptorProto{ev("ONE", 1), ev("ZERO", 0)}},                          // non-zero first, later zero
+			{Name: proto.String("N"), Value: []*descriptorpb.EnumValueDescriptorProto{ev("N_NEG", -1), ev("N_ZERO", 0), ev("N_ONE", 1)}},     // negative first
+			{Name: proto.String("NZ"), Value: []*descriptorpb.EnumValueDescriptorProto{ev("FIVE", 5), ev("SIX", 6), ev("MIN", -2147483648)}}, // no zero at all
+			{Name: proto.String("A"), Value: []*descriptorpb.EnumValueDescriptorProto{ev("A_TWO", 2), ev("A_DEUX", 2), ev("A_ZERO", 0), ev("A_NIL", 0)}, Options: &descriptorpb.EnumOptions{AllowAlias: proto.Bool(true)}},
+			{Name: proto.String("Z"), Value: []*descriptorpb.EnumValueDescriptorProto{ev("Z_ZERO", 0), ev("Z_ONE", 1), ev("Z_NEG", -5)}}, // zero first
+		}
+		m := &descriptorpb.DescriptorProto{Name: proto.String("M")}
+		num := int32(0)
+		add := func(name string, t descriptorpb.FieldDescriptorProto_Type, typeName, def string, label descriptorpb.FieldDescriptorProto_Label) *descriptorpb.FieldDescriptorProto {
+			num++
+			x := f(name, num, t.Enum())
+			x.Label = label.Enum()
+			if typeName != "" {
+				x.TypeName = proto.String("." + pkg + "." + typeName)
+			}
+			if def != "\x00none" {
+				x.DefaultValue = proto.String(def)
+			}
+			m.Field = append(m.Field, x)
+			return x
+		}
+		const none = "\x00none"
+		en := descriptorpb.FieldDescriptorProto_TYPE_ENUM
+		optl, reql, repl := descriptorpb.FieldDescriptorProto_LABEL_OPTIONAL, descriptorpb.FieldDescriptorProto_LABEL_REQUIRED, descriptorpb.FieldDescriptorProto_LABEL_REPEATED
+		for _, e := range []string{"E", "N", "NZ", "A", "Z"} {
+			add("opt_"+strings.ToLower(e), en, e, none, optl) // optional, no explicit default: the first declared value
+		}
+		add("e_first", en, "E", "ONE", optl)
+		add("e_zero", en, "E", "ZERO", optl)
+		add("n_nonfirst", en, "N", "N_ONE", optl)
+		add("n_zero", en, "N", "N_ZERO", optl)
+		add("nz_last", en, "NZ", "MIN", optl)
+		add("a_alias", en, "A", "A_DEUX", optl)
+		add("a_zero", en, "A", "A_NIL", optl)
+		add("z_nonfirst", en, "Z", "Z_NEG", optl)
+		add("req_e", en, "E", none, reql)
+		add("req_n", en, "N", none, reql)
+		add("rep_e", en, "E", none, repl)
+		add("rep_nz", en, "NZ", none, repl).Options = &descriptorpb.FieldOptions{Packed: proto.Bool(true)}
+		// scalar and string/bytes defaults
+		add("i32", descriptorpb.FieldDescriptorProto_TYPE_INT32, "", "-7", optl)
+		add("s64", descriptorpb.FieldDescriptorProto_TYPE_SINT64, "", "-9223372036854775808", optl)
+		add("u32", descriptorpb.FieldDescriptorProto_TYPE_UINT32, "", "4294967295", optl)
+		add("f64", descriptorpb.FieldDescriptorProto_TYPE_FIXED64, "", "18446744073709551615", optl)
+		add("b_true", descriptorpb.FieldDescriptorProto_TYPE_BOOL, "", "true", optl)
+		add("b_false", descriptorpb.FieldDescriptorProto_TYPE_BOOL, "", "false", optl)
+		add("fl", descriptorpb.FieldDescriptorProto_TYPE_FLOAT, "", "1.5", optl)
+		add("fl_inf", descriptorpb.FieldDescriptorProto_TYPE_FLOAT, "", "-inf", optl)
+		add("db", descriptorpb.FieldDescriptorProto_TYPE_DOUBLE, "", "1e+20", optl)
+		add("db_nan", descriptorpb.FieldDescriptorProto_TYPE_DOUBLE, "", "nan", optl)
+		add("str", descriptorpb.FieldDescriptorProto_TYPE_STRING, "", "hi \"there\"\n", optl)
+		add("str_empty", descriptorpb.FieldDescriptorProto_TYPE_STRING, "", "", optl)
+		add("byt", descriptorpb.FieldDescriptorProto_TYPE_BYTES, "", "\\001\\377abc", optl)
+		add("byt_empty", descriptorpb.FieldDescriptorProto_TYPE_BYTES, "", "", optl)
+		add("plain_i32", descriptorpb.FieldDescriptorProto_TYPE_INT32, "", none, optl)
+		add("plain_str", descriptorpb.FieldDescriptorProto_TYPE_STRING, "", none, optl)
+		add("plain_byt", descriptorpb.FieldDescriptorProto_TYPE_BYTES, "", none, optl)
+		// oneof members
+		m.OneofDecl = []*descriptorpb.OneofDescriptorProto{{Name: proto.String("o")}}
+		for _, e := range []string{"E", "N", "NZ", "A"} {
+			add("o_"+strings.ToLower(e), en, e, none, optl).OneofIndex = proto.Int32(0)
+		}
+		add("o_i", descriptorpb.FieldDescriptorProto_TYPE_INT32, "", none, optl).OneofIndex = proto.Int32(0)
+		add("o_s", descriptorpb.FieldDescriptorProto_TYPE_STRING, "", none, optl).OneofIndex = proto.Int32(0)
+		// map values (the first value of a map value enum must be zero)
+		val := f("value", 2, en.Enum())
+		val.TypeName = proto.String("." + pkg + ".Z")
+		m.NestedType = []*descriptorpb.DescriptorProto{{Name: proto.String("MapZEntry"), Field: []*descriptorpb.FieldDescriptorProto{f("key", 1, str), val}, Options: &descriptorpb.MessageOptions{MapEntry: proto.Bool(true)}}}
+		add("map_z", descriptorpb.FieldDescriptorProto_TYPE_MESSAGE, "M.MapZEntry", none, repl)
+		fd.MessageType = []*descriptorpb.DescriptorProto{m}
 	default:
 		return nil
 	}
@@ -1073,6 +1216,7 @@ func gencodeKnown(fd *descriptorpb.FileDescriptorProto, gen *protogen.Plugin) ma
 }
 
 var gencodeLastKnown map[string]bool
+var gencodeLastNonZeroFirst int
 var gencodeLastNames string
 
 // gencodeAccessorNames lists, for every scalar singular field, the accessor method names that
@@ -1086,9 +1230,6 @@ func gencodeAccessorNames(gen *protogen.Plugin) string {
 				continue
 			}
 			for _, f := range m.Fields {
-				if f.Desc.IsList() || f.Desc.IsMap() || f.Desc.Message() != nil {
-					continue
-				}
 				get, compat := f.MethodName("Get")
 				set, _ := f.MethodName("Set")
 				has, clr := "", ""
@@ -1247,7 +1388,7 @@ func famGencode(c *Ctx) {
 			}
 			var fd *descriptorpb.FileDescriptorProto
 			if i < gencodeCorpusSize {
-				fd = gencodeCorpus(i, pkg, fileName, goPkg)
+				fd = gencodeCorpus(gencodeCorpusOrder[i], pkg, fileName, goPkg)
 			} else {
 				fd = gencodeSchema(seed, pkg, fileName, goPkg)
 			}
@@ -1263,6 +1404,9 @@ func famGencode(c *Ctx) {
 			}
 			if li == 0 {
 				c.Stat("schema_valid")
+				if i >= gencodeCorpusSize {
+					c.StatN("random_enums_nonzero_first", gencodeLastNonZeroFirst)
+				}
 				c.Stat("schema_syntax_" + map[string]string{"": "proto2", "proto2": "proto2", "proto3": "proto3", "editions": "editions"}[fd.GetSyntax()])
 			}
 			var param string
